@@ -142,8 +142,18 @@ def run_case(case):
     q = case['query']
     script = 'a = ${%s}\nb = PBK_FILENAME\nc = PBK_BUFR_MESSAGE\n' % q
     if case.get('pragma') is not None:
-        script = '#$ data_values_nest_level = %d\n' % case['pragma'] + script
-    sr = ScriptRunner(script, data_values_nest_level=case.get('arg'))
+        # the magic comment "starts with #$" (documentation): with and without blanks around the name and the sign
+        form = ['#$ data_values_nest_level = %d\n', '#$data_values_nest_level=%d\n', '#$   data_values_nest_level   =   %d   \n',
+                '#$ data_values_nest_level = %d  # level of nesting\n'][case.get('pragma_form', 0)]
+        script = form % case['pragma'] + script
+    if case.get('first_comment'):
+        # an ordinary comment that merely begins with the two characters of the magic comment
+        script = case['first_comment'] + script
+    try:
+        sr = ScriptRunner(script, data_values_nest_level=case.get('arg'))
+    except Exception as e:
+        viol.append({'sig': 'runner-construction-raises:' + type(e).__name__, 'detail': 'ScriptRunner(%r) raised %r' % (script, e)})
+        return 'bad', viol
     level = case['arg'] if case.get('arg') is not None else (case['pragma'] if case.get('pragma') is not None else 1)
     from pybufrkit.errors import QueryError
     try:
@@ -335,6 +345,14 @@ def build_run_cases(tier):
                     for pragma in (None, 0, 2):
                         cases.append({'kind': 'run', 'file': '<generated>', 'counts': list(counts), 'compressed': comp,
                                       'query': q, 'arg': arg, 'pragma': pragma})
+                if counts == GEN_COUNTS[0] and not comp:
+                    for pragma in (0, 2, 4):
+                        for form in (1, 2, 3):
+                            cases.append({'kind': 'run', 'file': '<generated>', 'counts': list(counts), 'compressed': comp,
+                                          'query': q, 'arg': None, 'pragma': pragma, 'pragma_form': form})
+                    for fc in ('#$Id$\n', '#${001001} is the WMO block number\n', '#$\n', '#$ not a pragma\n'):
+                        cases.append({'kind': 'run', 'file': '<generated>', 'counts': list(counts), 'compressed': comp,
+                                      'query': q, 'arg': None, 'pragma': None, 'first_comment': fc})
     return cases
 
 
